@@ -140,6 +140,13 @@ theorem reach_inv (m : Machine.{u}) (s : m.σ) (h : m.Reach s) : m.inv s := by
   | init => exact m.init_inv
   | step op _ ih => exact m.step_inv _ op ih
 
+/-- a reader that accepts every `SeekToRow`: beyond the last row it simply stands at the end
+    (`FilePages` over a chunk with pages, `multiPages`) -/
+def Lenient (m : Machine.{u}) : Prop := ∀ s k, m.inv s → (m.step s (.seek k)).2 = .ok
+
+/-- a reader that refuses every `SeekToRow` beyond its last row (`rangePages`) -/
+def Strict (m : Machine.{u}) : Prop := ∀ s k, m.inv s → m.total < k → (m.step s (.seek k)).2 = .err
+
 end Machine
 
 /-! ### `FilePages` is a machine -/
@@ -726,6 +733,51 @@ def multiM (ms : List Machine.{u}) : Machine.{u+1} where
       have := h.1
       split <;> omega
     | loadIndex => exact ⟨rfl, rfl⟩
+
+
+/-! ### how the readers answer a seek beyond the last row -/
+
+theorem seekFixed_ok (c : Chunk) (s : St) (k : Nat) (hne : c.rows ≠ []) : (Seek.seekFixed c s k).2 = .ok := by
+  have hemp : c.rows.isEmpty = false := by
+    cases h : c.rows with
+    | nil => exact absurd h hne
+    | cons _ _ => rfl
+  unfold Seek.seekFixed
+  simp only [hemp]
+  split
+  · rfl
+  · simp only [Bool.false_eq_true, if_false]
+    split <;> (repeat' split) <;> rfl
+
+/-- `FilePages` over a chunk that has pages accepts every seek -/
+theorem filePages_lenient (c : Chunk) (hpos : ∀ r ∈ c.rows, 0 < r) (hi : Bool) (hne : c.rows ≠ []) :
+    (filePages c hpos hi).Lenient := by
+  intro s k _
+  show erase (Seek.stepFixed c s (.seek k)).2 = .ok
+  simp only [Seek.stepFixed, seekFixed_ok c s k hne, erase]
+
+/-- a row-range view refuses seeks beyond its window -/
+theorem rangeM_strict (b : Machine.{u}) (off len : Nat) (hwin : off + len ≤ b.total) :
+    (rangeM b off len hwin).Strict := by
+  intro s k _ hk
+  have hk' : len < k := hk
+  show (Range.seek b off len s k).2 = .err
+  simp only [Range.seek, hk', if_true]
+
+/-- `multiPages` accepts every seek -/
+theorem multiM_lenient (ms : List Machine.{u}) : (multiM ms).Lenient := by
+  intro s k _
+  show (Multi.seek ms k).2 = .ok
+  obtain ⟨_, h2, _⟩ := Multi.locate_spec ms k
+  unfold Multi.seek
+  cases hm : ms[(Multi.locate ms k).1]? with
+  | none => rfl
+  | some m =>
+    simp only []
+    obtain ⟨e1, _⟩ := h2 m hm
+    rcases m.step_spec m.init (.seek (Multi.locate ms k).2) m.init_inv with ⟨ho, _⟩ | ⟨_, _, hbad⟩
+    · exact ho
+    · omega
 
 
 end PqModel.SeekLayers
